@@ -62,7 +62,7 @@ LeavesMini  == {INT, NSt, NSt2}
 LeavesPtr   == {INT, NSt, NSt2, P(INT), P(P(INT)), P(NSt), P(NSt2)}
 
 \* the leaves goverter cannot convert by itself, and named non-struct types (C13)
-LeavesOdd   == {INT, B("byte"), B("uintptr"), B("unsafe.Pointer"), ERR, ANY, IFM, Fn, Ch, NI, NSt, NP, NSl, NM, NA}
+LeavesOdd   == {INT, STR, NS, B("byte"), B("uintptr"), B("unsafe.Pointer"), ERR, ANY, IFM, Fn, Ch, NI, NSt, NP, NSl, NM, NA}
 Cfgs == [skip : BOOLEAN, zero : BOOLEAN]
 CfgsSkip == [skip : BOOLEAN, zero : {FALSE}]
 =============================================================================
